@@ -1,0 +1,48 @@
+//! Dumps used by the crash-protocol correspondence: which batches a WAL segment file delivers
+//! and which (key, sequence number) entries a table file holds. Read-only.
+
+use std::path::Path;
+use std::sync::Arc;
+
+use crate::batch::Batch;
+use crate::sstable::table::Table;
+use crate::vfs::File;
+use crate::{LSMIterator, Options};
+
+/// Per record the reader delivers: (starting sequence number, entry count, offset the reader
+/// reports after the record), then how the read ended ("eof", "corrupt@<offset>:<message>" or
+/// "other:<message>"). A record that does not decode as a batch is reported as (0, 0, offset).
+pub fn wal_batches(path: &Path) -> Result<(Vec<(u64, u32, u64)>, String), String> {
+	let (recs, tail) = super::wal::read_segment(path)?;
+	let mut out = Vec::with_capacity(recs.len());
+	for (data, off) in recs {
+		match Batch::decode(&data) {
+			Ok(b) => out.push((b.starting_seq_num, b.count(), off)),
+			Err(_) => out.push((0, 0, off)),
+		}
+	}
+	let tail = match tail {
+		super::wal::Tail::Eof => "eof".to_string(),
+		super::wal::Tail::Corrupt(m, o) => format!("corrupt@{}:{}", o, m.replace(' ', "_")),
+		super::wal::Tail::Other(m) => format!("other:{}", m.replace(' ', "_")),
+	};
+	Ok((out, tail))
+}
+
+/// Every entry of a table file in table order: (user key, sequence number, kind byte).
+pub fn table_entries(path: &Path, id: u64) -> Result<Vec<(Vec<u8>, u64, u8)>, String> {
+	let opts = Arc::new(Options::new());
+	let file = crate::vfs::open_for_sync(path).map_err(|e| e.to_string())?;
+	let file: Arc<dyn File> = Arc::new(file);
+	let size = file.size().map_err(|e| e.to_string())?;
+	let table = Table::new(id, opts, file, size).map_err(|e| e.to_string())?;
+	let mut it = table.iter(None).map_err(|e| e.to_string())?;
+	let mut out = Vec::new();
+	let mut ok = it.seek_first().map_err(|e| e.to_string())?;
+	while ok {
+		let k = it.key();
+		out.push((k.user_key().to_vec(), k.seq_num(), k.trailer() as u8));
+		ok = it.next().map_err(|e| e.to_string())?;
+	}
+	Ok(out)
+}
